@@ -34,7 +34,7 @@ def gen_num(rng, lo, hi, digits=None):
     v = edge(rng, lo, hi)
     if v < 0: v = 0
     s = b'%d' % v
-    if rng.random() < 0.1: s = b'0' * rng.randrange(1, 3) + s
+    if rng.random() < 0.1: s = b'0' * rng.choice([1, 1, 2, 2, 7, 8, 9, 10, 11, 15, 25]) + s      # leading zeros never end a numeral
     return s
 
 
